@@ -79,20 +79,24 @@ pub fn newtype_domain() -> Vec<String> {
 '''
 
 
-def enum_case(cid, names, maxlen, enum_name="En", vattrs=None):
-    """vattrs: per variant, attributes that are none of FromStr's business (the variant takes part all the same)."""
+def enum_case(cid, names, maxlen, enum_name="En", vattrs=None, empties=None, generic=False):
+    """vattrs: per variant, attributes that are none of FromStr's business (the variant takes part all the same).
+    empties: per variant (cyclic), "" / "()" / " {}": a variant with an EMPTY field list has no fields either.
+    generic: the enum has a const parameter and a where-clause, both to be carried onto the impl."""
     plain = [n[2:] if n.startswith("r#") else n for n in names]
-    decorated = ["%s %s" % (vattrs[i % len(vattrs)], n) if vattrs and vattrs[i % len(vattrs)] else n for i, n in enumerate(names)]
-    arms = ", ".join("%s::%s => %d" % (enum_name, n, i) for i, n in enumerate(names))
+    suffix = [(empties[i % len(empties)] if empties else "") for i in range(len(names))]
+    decorated = [("%s %s" % (vattrs[i % len(vattrs)], n) if vattrs and vattrs[i % len(vattrs)] else n) + suffix[i] for i, n in enumerate(names)]
+    arms = ", ".join("%s::%s { .. } => %d" % (enum_name, n, i) for i, n in enumerate(names))
+    gdecl, ginst = ("<const N: usize> where [u8; N]: Sized", "<3>") if generic else ("", "")
     mod = """use super::*;
 #[derive(derive_more::FromStr)]
-pub enum %(E)s { %(vars)s }
-#[allow(deprecated)] fn idx(e: &%(E)s) -> usize { match e { %(arms)s } }
+pub enum %(E)s%(gdecl)s { %(vars)s }
+#[allow(deprecated)] fn idx(e: &%(E)s%(ginst)s) -> usize { match e { %(arms)s } }
 pub fn run(r: &mut R) {
-    probe_enum::<%(E)s>(r, &[%(names)s], "%(Eplain)s", %(maxlen)d, idx);
-}""" % {"E": enum_name, "Eplain": enum_name[2:] if enum_name.startswith("r#") else enum_name,
+    probe_enum::<%(E)s%(ginst)s>(r, &[%(names)s], "%(Eplain)s", %(maxlen)d, idx);
+}""" % {"E": enum_name, "Eplain": enum_name[2:] if enum_name.startswith("r#") else enum_name, "gdecl": gdecl, "ginst": ginst,
         "vars": ", ".join(decorated), "arms": arms, "names": ", ".join('"%s"' % p for p in plain), "maxlen": maxlen}
-    return Case(cid, mod, meta={"kind": "enum", "names": names, "src": "#[derive(FromStr)] enum %s { %s }" % (enum_name, ", ".join(decorated))})
+    return Case(cid, mod, meta={"kind": "enum", "names": names, "src": "#[derive(FromStr)] enum %s%s { %s }" % (enum_name, gdecl, ", ".join(decorated))})
 
 
 NEWTYPES = [("i32", "i32", "|x| x"), ("u8", "u8", "|x| x"), ("i8", "i8", "|x| x"), ("bool", "bool", "|x| x"), ("char", "char", "|x| x"),
@@ -109,6 +113,12 @@ def newtype_case(cid, tname, ty, key, shape):
         inst = "N"
     elif shape == "generic":
         decl, get = "pub struct N<T>(pub T);", "n.0"
+        inst = "N<%s>" % ty
+    elif shape == "generic_where":
+        decl, get = "pub struct N<T, const K: usize>(pub T) where T: Clone;", "n.0"
+        inst = "N<%s, 2>" % ty
+    elif shape == "generic_named_where":
+        decl, get = "pub struct N<U = u8> where U: Clone, { pub inner: U, }", "n.inner"
         inst = "N<%s>" % ty
     else:  # raw identifier field
         decl, get = "pub struct N { pub r#type: %s }" % ty, "n.r#type"
@@ -154,13 +164,20 @@ def run(chk, tier):
     for va in (["#[doc(hidden)]", ""], ["", "#[doc(hidden)]"], ["#[allow(dead_code)]", "#[doc(hidden)] #[allow(unused)]"], ["#[cfg(all())]", "#[doc = \"d\"]"], ["#[deprecated]", ""]):
         for sub in (["Foo", "FOO", "Bar"], ["Baz", "BaZ"], ["A"]):
             cases.append(enum_case("e%d" % len(cases), list(sub), maxlen, vattrs=va))
+    # variants with an empty field list (`V()`, `V {}`) in every position, and enums with a const parameter and a where-clause
+    for em in (["()", ""], ["", " {}"], ["()", " {}", ""], [" {}"], ["()"]):
+        for sub in (["Foo", "FOO", "Bar"], ["Baz", "BaZ"], ["A"], ["r#fn", "Fn", "Ba"]):
+            cases.append(enum_case("e%d" % len(cases), list(sub), maxlen, empties=em))
+    for sub in (["Foo", "FOO", "Bar"], ["Baz", "BaZ"], ["A"], ["r#fn", "Fn", "Ba"], ["Foo", "Bar"]):
+        cases.append(enum_case("e%d" % len(cases), list(sub), maxlen, generic=True))
+        cases.append(enum_case("e%d" % len(cases), list(sub), maxlen, generic=True, empties=[" {}", "", "()"]))
     ne = len(cases)
     chk.part("enums", name_pool=NAMES, subset_sizes=list(sizes), programs=ne,
              strings="all strings of length <= %d over the names' letters in both cases + '_',' ','#','r','R'; all case patterns, prefixes, 1-char extensions, r#-prefixed and whitespace-padded forms of every name; 8 non-ASCII probes" % maxlen)
     for tname, ty, key in NEWTYPES:
-        for shape in ("tuple", "named", "generic", "rawfield"):
+        for shape in ("tuple", "named", "generic", "rawfield", "generic_where", "generic_named_where"):
             cases.append(newtype_case("n%d" % len(cases), tname, ty, key, shape))
-    chk.part("newtypes", field_types=[t[0] for t in NEWTYPES], shapes=["tuple", "named", "generic<T>", "raw-identifier field"],
+    chk.part("newtypes", field_types=[t[0] for t in NEWTYPES], shapes=["tuple", "named", "generic<T>", "raw-identifier field", "type + const parameter with a where-clause", "defaulted parameter, where-clause with a trailing comma"],
              programs=len(cases) - ne, strings="50 hand-picked edge strings + all strings of length <= 2 over 0123456789-+.eatf:")
     eng = CompileEngine("C13", prelude=PRELUDE, per_bin=max(4, len(cases) // 16 + 1))
     results = eng.run_cases(cases)
